@@ -50,7 +50,7 @@ META = {
                 "BIP341 SIGHASH_SINGLE without a matching output: BIP341 makes the signature invalid; the oracle demands that no digest is "
                 "returned (the library raises IndexError, accepted)",
                 "BIP341 with an empty witness (signing time) is taken as key path without annex",
-                "edits of the private fields TxIn._value / TxIn._script_pubkey (preset, never fetched)",
+                "TxIn._value / TxIn._script_pubkey are preset (never fetched); edits of them (correcting the recorded spent output) are history steps of their own",
                 "Tx.sha_sequences() called directly on a fresh object (AttributeError from the _sha_sequence/_sha_sequences naming) is "
                 "reported only through the digest functions"],
     "stubs": ["sha256 (hence hash256 and tagged hashes) as an uninterpreted function on symbolic input, same symbol in code and oracle",
@@ -770,6 +770,7 @@ H_KIND = {"legacy": "p2pkh", "bip143": "p2wpkh", "bip341": "p2tr"}
 EDITS_OUT = ("out_amount", "out_script", "out_append", "out_pop", "outs_replace")
 EDITS_IN = ("in_sequence", "in_prev_index", "in_prev_tx", "in_append", "in_pop", "ins_replace")
 EDITS_OTHER = ("locktime", "version", "witness", "replace_all")
+EDITS_SPENT = ("in_value", "in_spk")      # the recorded spent-output data of an input (amount / scriptPubKey), corrected in place
 EDITS = EDITS_OUT + EDITS_IN + EDITS_OTHER
 FILLS = {"none": (), "in": ("in",), "out": ("out",), "both": ("in", "out")}
 FILL_METHOD = {("bip143", "in"): "hash_prevouts", ("bip143", "out"): "hash_outputs", ("bip341", "in"): "sha_prevouts",
@@ -795,6 +796,11 @@ def mk_edit_args(g, p, edit, c, kind, shape=None):
         return {"i": 0, "idx": g.si(p + ".idx", 0, (1 << 32) - 1)}
     if edit == "in_prev_tx":
         return {"i": n_in - 1, "prev": g.sb(p + ".prev", 32)}
+    if edit == "in_value":
+        return {"i": n_in - 1, "value": g.si(p + ".value", 0, (1 << 63) - 1)}
+    if edit == "in_spk":
+        old = c["ins"][0]["spk"]
+        return {"i": 0, "spk": [x if isinstance(x, int) else g.sb(p + f".spk{k}", len(x)) for k, x in enumerate(old)]}
     if edit == "in_append":
         return {"in": mk_in(g, p + ".in", kind)}
     if edit == "ins_replace":
@@ -839,6 +845,12 @@ def apply_edit(M, tx, c, edit, a):
     elif edit == "in_prev_tx":
         tx.tx_ins[a["i"]].prev_tx = a["prev"]
         c["ins"][a["i"]]["prev"] = a["prev"]
+    elif edit == "in_value":
+        tx.tx_ins[a["i"]]._value = a["value"]
+        c["ins"][a["i"]]["value"] = a["value"]
+    elif edit == "in_spk":
+        tx.tx_ins[a["i"]]._script_pubkey = M.script.ScriptPubKey(list(a["spk"]))
+        c["ins"][a["i"]]["spk"] = list(a["spk"])
     elif edit == "in_append":
         tx.tx_ins.append(build_in(M, a["in"]))
         c["ins"].append(a["in"])
@@ -1011,7 +1023,8 @@ def _history_step_runs(alg, edit, shape_a, shapes_b):
     runs = []
     kind = H_KIND[alg]
     # (nothing filled is the fresh object itself; it is the only memo state of the legacy algorithm)
-    fills = ("none",) if alg == "legacy" else ("in", "out", "both")
+    # "query": whatever a complete digest computation (input 0, ALL / DEFAULT) leaves behind on the object, under any name
+    fills = ("none", "query") if alg == "legacy" else ("in", "out", "both", "query")
     hts = HT_TAP if alg == "bip341" else HT_STD
     for shape_b in shapes_b:
         for fill in fills:
@@ -1019,7 +1032,10 @@ def _history_step_runs(alg, edit, shape_a, shapes_b):
             n_in_after = {"in_append": shape_a[0] + 1, "in_pop": shape_a[0] - 1, "ins_replace": shape_b[0], "replace_all": shape_b[0]}.get(edit, shape_a[0])
 
             def steps_fn(g, c0, idx, ht):
-                st = [["fill", FILL_METHOD[(alg, grp)]] for grp in FILLS[fill]]
+                if fill == "query":
+                    st = [["query", 0, 0 if alg == "bip341" else ALL]]
+                else:
+                    st = [["fill", FILL_METHOD[(alg, grp)]] for grp in FILLS[fill]]
                 st.append(["edit", edit, mk_edit_args(g, "B", edit, c0, kind, shape_b)])
                 st.append(["query", idx, ht])
                 return st
@@ -1103,7 +1119,7 @@ def obligations(tier):
         obs.append(Ob("O5-history-step", ob_history_step, {"alg": "legacy", "edits": ("outs_replace", "ins_replace", "replace_all"), "shape_a": sa,
                                                             "shapes_b": tuple((bi, bo) for bi in b_in for bo in b_out)}, replay="history", budget_s=(600 if q else 1500)))
         for alg in ("bip143", "bip341"):
-            for grp in (EDITS_OUT[:4], EDITS_IN[:5], EDITS_OTHER[:3]):
+            for grp in (EDITS_OUT[:4], EDITS_IN[:5], EDITS_OTHER[:3], EDITS_SPENT):
                 obs.append(Ob("O5-history-step", ob_history_step, {"alg": alg, "edits": grp, "shape_a": sa}, replay="history", budget_s=(600 if q else 1500)))
             obs.append(Ob("O5-history-step", ob_history_step, {"alg": alg, "edits": ("outs_replace",), "shape_a": sa,
                                                                 "shapes_b": tuple((sa[0], bo) for bo in b_out)}, replay="history", budget_s=(600 if q else 1500)))
